@@ -357,9 +357,9 @@ def add (cfg : Cfg) (s : State) (path : List Str) (orig : Str) (className singul
   let jp := joinPath path
   match find s.refs jp with
   | some r0 =>
-    -- `if loaded and not reference.loaded: reference.loaded = True`
-    let s1 : State := if loaded && !r0.loaded then { s with refs := upd jp (fun e => { e with loaded := true }) s.refs } else s
-    let r : Entry := if loaded && !r0.loaded then { r0 with loaded := true } else r0
+    -- `if loaded and not reference.loaded: reference.loaded = True`, i.e. `loaded := loaded₀ or loaded`
+    let s1 : State := { s with refs := upd jp (fun e => { e with loaded := e.loaded || loaded }) s.refs }
+    let r : Entry := { r0 with loaded := r0.loaded || loaded }
     if orig = [] || orig = r.orig || orig = r.name then (s1, .ref r)
     else
       match addName cfg s1 orig className singular unique sgSfx (some r.name) with
